@@ -61,6 +61,20 @@ def _traj(job, env0):
     env = env0 or NASimEnv(scn, fully_obs=job.get("fo", False), flat_actions=True, flat_obs=True)
     if job.get("reuse"):
         job["_env"] = env          # the same environment object serves every repetition of this key
+    if job.get("gymseed") and env0 is None:
+        env.reset(seed=job["gymseed"])      # the Gymnasium way of seeding, once in the environment's life
+    if job.get("genseq"):
+        # seeded generative steps from the initial state, no reset in between repetitions
+        np.random.seed(job["seed"])
+        rng = random.Random(job["seed"])
+        h = hashlib.sha256()
+        st = env.current_state
+        n = env.action_space.n
+        for _ in range(job["steps"]):
+            ns, obs, r, d, info = env.generative_step(st, rng.randrange(n))
+            h.update(ns.tensor.tobytes())
+            h.update(repr((float(r), bool(d), bool(info["success"]), bool(info["undefined_error"]))).encode())
+        return h.hexdigest()[:20]
     np.random.seed(job["seed"])
     rng = random.Random(job["seed"])
     h = hashlib.sha256()
